@@ -334,7 +334,16 @@ def _loop_form(prog, rep, fi, q, s, loop, ctor, slot_of, comp_filters, irp):
                 and isinstance(getattr(c, "_parent", None), ast.Expr):
             appends.append((c.func.value.id, c.args[0], c))
     if not appends:
-        return 0
+        # a loop that only *picks* by name (`for item in items: if <name test>: x = f(item); break`): it consumes that side
+        # of a name-only partition (e.g. the **kwargs entry whose complement a comprehension keeps)
+        picked = 0
+        for st in ast.walk(loop):
+            if isinstance(st, ast.If) and any(isinstance(x, ast.Name) and x.id in names_in(tgt) for b_ in st.body for x in ast.walk(b_)):
+                core = _comp_pred_core(tgt, st.test, keys=keys)
+                if core is not None:
+                    comp_filters.append((core, st))
+                    picked += 1
+        return picked
     if any(isinstance(x, ast.Break) for x in ast.walk(loop)):
         rep.violation(Finding("ORDER", q, "sequence:break-in-loop", "the loop over the parameter mapping can stop early (break): later parameters are dropped", loc(prog, loop)))
         return 1
